@@ -35,6 +35,9 @@ def check(run: Run) -> None:
     fi = cls.methods.get("visit_Call")
     if fi is None:
         raise AnalysisError("anchor vanished: aggregate_node_transformer.visit_Call")
+    from ..normalise import unrolled
+
+    fi = unrolled(m, fi)  # a first-match loop over a literal (name, fold) table is read as the if-chain it abbreviates
     run.rule("C19.R1", "dispatch: Aggregate is produced only for a Call whose callee is an ast.Name with id in {len, Count, Sum, Max, Min}; all five are covered")
     run.rule("C19.R2", "every lowering branch is guarded by len(node.args) == 1 and by the absence of keywords")
     run.rule("C19.R3", "fold literal == acc+1 / acc+v / max / min on the integer grid (all orderings); seed is Constant(0); Aggregate(seq, seed, fold)")
@@ -180,6 +183,9 @@ def shortcut_names(m) -> set:
     fi = cls.methods.get("visit_Call")
     if fi is None:
         raise AnalysisError("anchor vanished: aggregate_node_transformer.visit_Call")
+    from ..normalise import unrolled
+
+    fi = unrolled(m, fi)
     ctx = TermCtx(m, max_depth=4)
     fa = ctx.analysis(fi)
     node_p = ("param", fi.pos_params[1])
